@@ -15,7 +15,7 @@ LEVEL = "exploration"
 RULE = (
     "G cases of every family incl. update ops, each executed with every argument in a drawn memory layout (C, Fortran, transposed view, negative-stride view, "
     "strided view, read-only) once uncached and once cached, plus graph=True, solve_axes/solve_shapes/matches on the same arguments, list/ndarray keyword sizes, "
-    "and wrong-arity calls of fixed-arity scalar ops; distinct by (op, layout, skeleton); non-trivial if a non-contiguous or read-only layout is involved"
+    "wrong-arity calls of fixed-arity scalar ops, and 40 fixed calls of all families on tensors of >= 2**16 elements (coordinate dtypes int64/int32/intp, 3 backends, 2 layouts); distinct by (op, layout, skeleton); non-trivial if a non-contiguous or read-only layout is involved"
 )
 ASSUMPTIONS = ["the first tensor of set_at/add_at/subtract_at (and any alias of it) is exempt", "a 'destination is read-only' failure on a non-exempt argument counts as a write attempt"]
 TIMEOUT = {"quick": 900, "thorough": 7200}
@@ -96,6 +96,47 @@ def run(spec, out):
         for name in ("solve_axes", "solve_shapes", "matches"):
             fn = getattr(einx, name)
             guarded(out, f"{name}:call", lambda: fn(indesc, *tensors, **sizekw), tensors, sizekw, set(), cj)
+    # large tensors (>= 2**16 elements per argument, beyond G's size limit): size-gated fast paths (in-place scaling of index arrays,
+    # views instead of copies for big inputs) must not write to arguments either; coordinate dtypes int64 / int32 / intp
+    if spec.get("shard", 0) % 4 == 0:
+        N = 1 << 16
+        big = []
+        for cdt in (np.int64, np.int32, np.intp):
+            co2 = nprng.integers(0, 20, size=(N + 7, 2)).astype(cdt)
+            co1 = nprng.integers(0, 20, size=(N + 7,)).astype(cdt)
+            tgt = nprng.normal(size=(20, 20, 3))
+            big += [
+                ("get_at", "[h w] c, p [2] -> p c", [tgt, co2], {}, set()),
+                ("get_at", "[h] w c, p -> p w c", [tgt, co1[:4000]], {}, set()),
+                ("get_at", "[h w] c, p, p -> p c", [tgt, co1, co1[::-1].copy()], {}, set()),
+                ("get_at", "b [h] c, b p -> b p c", [tgt, nprng.integers(0, 20, size=(20, N // 16)).astype(cdt)], {}, set()),
+                ("get_at", "[h w c], p [3] -> p", [tgt, nprng.integers(0, 3, size=(N + 1, 3)).astype(cdt)], {}, set()),
+                ("add_at", "[h w] c, p [2], p c -> [h w] c", [tgt.copy(), co2, np.ones((N + 7, 3))], {}, {0}),
+                ("set_at", "[h w] c, p [2], c -> [h w] c", [tgt.copy(), co2, np.ones(3)], {}, {0}),
+                ("subtract_at", "[h] w c, p, p c -> [h] w c", [tgt.copy(), co1, np.ones((N + 7, 3))], {}, {0}),
+            ]
+        xl = nprng.normal(size=(N * 2,))
+        xm = nprng.normal(size=(256, 300))
+        big += [
+            ("sort", "(a [b])", [xl.copy()], {"b": 16}, set()), ("argsort", "(a [b])", [xl.copy()], {"b": 16}, set()), ("sort", "a [b]", [xm.copy()], {}, set()),
+            ("roll", "(a [b])", [xl.copy()], {"b": 8, "shift": 3}, set()), ("flip", "(a [b])", [xl.copy()], {"b": 8}, set()), ("softmax", "a [b]", [xm.copy()], {}, set()),
+            ("sum", "(a [b])", [xl.copy()], {"b": 4}, set()), ("max", "[a] b", [xm.copy()], {}, set()), ("id", "(a b) -> b a", [xl.copy()], {"b": 2}, set()),
+            ("id", "a b -> (b a)", [xm.copy()], {}, set()), ("add", "a b, b", [xm.copy(), np.ones(300)], {}, set()), ("multiply", "a b, a b", [xm.copy(), xm.copy()], {}, set()),
+            ("dot", "a [b], [b] c -> a c", [xm.copy(), nprng.normal(size=(300, 250))], {}, set()), ("argmax", "a [b]", [xm.copy()], {}, set()), ("id", "a b -> a b 2", [xm.copy()], {}, set()),
+            ("id", "(a + b) -> a, b", [xl.copy()], {"a": N}, set()),
+        ]
+        for op, d, tens, kw, exempt in big:
+            f = getattr(einx, op)
+            for b in (None, "numpy.numpylike", "numpy.einsum"):
+                bk = {} if b is None else {"backend": b}
+                for layout in ("c", rng.choice(["transposed", "negstride", "fortran"])):
+                    ts = [relayout(t, layout) if i not in exempt else t for i, t in enumerate(tens)]
+                    cjb = {"op": op, "desc": d, "shapes": [list(np.shape(t)) for t in ts], "dtypes": [str(np.asarray(t).dtype) for t in ts], "backend": b, "layout": layout}
+                    out.count("large_tensor_calls")
+                    out.distinct_key(f"large|{op}|{d}|{cjb['dtypes']}|{layout}|{b}")
+                    st = guarded(out, f"{op}:large", lambda: f(d, *ts, **kw, **bk), ts, kw, exempt, cjb)
+                    if st == "ok":
+                        out.count("large_tensor_calls_ok")
     # wrong-arity calls of fixed-arity scalar ops: an extra tensor must not be written
     binary = ["subtract", "true_divide", "floor_divide", "divide", "less", "less_equal", "greater", "greater_equal", "equal", "not_equal"]
     for op in binary:
@@ -116,6 +157,8 @@ def finalize(agg, tier, seed):
     for lay in ("transposed", "negstride", "broadcast", "readonly", "fortran"):
         if c.get(f"layout:{lay}", 0) < 20:
             agg.inconclusive.append(f"layout {lay} observed only {c.get(f'layout:{lay}', 0)} times")
+    if c.get("large_tensor_calls_ok", 0) < 100:
+        agg.inconclusive.append(f"only {c.get('large_tensor_calls_ok', 0)} successful calls with large tensors")
     if c.get("status:ok", 0) < 500:
         agg.inconclusive.append("fewer than 500 successful guarded calls")
     return {"layouts": {k[7:]: int(v) for k, v in c.items() if k.startswith("layout:")}}
